@@ -170,20 +170,42 @@ func c17Case(c *core.Ctx, idx int) {
 		insts = append(insts, c17NewInst(r, i, &nextID))
 	}
 	type job struct {
-		in   *c17Inst
-		v    reflect.Value
-		want []byte
+		in        *c17Inst
+		v         reflect.Value
+		want      []byte
+		failFirst *c17Inst // an instance on which a failing build is attempted just before this job
 	}
 	var jobs []job
 	nj := 6 * n
 	for j := 0; j < nj; j++ {
 		in := insts[r.IntN(n)]
 		v := c17Value(r, in)
-		jobs = append(jobs, job{in, v, in.expect(v)})
+		jb := job{in: in, v: v, want: in.expect(v)}
+		if r.IntN(3) == 0 {
+			jb.failFirst = insts[r.IntN(n)]
+		}
+		jobs = append(jobs, jb)
+	}
+	// a build that fails on one instance (an unsupported field after fields whose codecs were
+	// already built) must not influence the next build on another instance
+	failing := reflect.StructOf([]reflect.StructField{
+		sf("S", reflect.SliceOf(markedT), `plenc:"1"`), sf("P", reflect.PointerTo(markedT), `plenc:"2"`), sf("M", reflect.MapOf(tString, markStrT), `plenc:"3"`),
+		sf("SS", reflect.SliceOf(tString), `plenc:"4"`), sf("T", model.TimeT, `plenc:"5"`), sf("N", markStrT, `plenc:"6"`), sf("Bad", reflect.TypeOf(make(chan int)), `plenc:"7"`)})
+	failOn := func(in *c17Inst) string {
+		var err error
+		if pn := core.Guard(func() { _, err = in.p.CodecForType(failing) }); pn != "" {
+			return in.name + ": CodecForType of an invalid definition panicked: " + pn
+		}
+		if err == nil {
+			return in.name + ": a definition with a chan field was accepted"
+		}
+		return ""
 	}
 	run := func(j job) string {
-		for _, f := range model.Fields(j.in.typ) {
-			_ = f
+		if j.failFirst != nil {
+			if d := failOn(j.failFirst); d != "" {
+				return d
+			}
 		}
 		got, err, pn := marshal(j.in.p, nil, ptrTo(j.v))
 		if err != nil || pn != "" {
@@ -230,6 +252,21 @@ func c17Case(c *core.Ctx, idx int) {
 	if fail != "" {
 		rec.Violation("scoping", fail, extra)
 		return
+	}
+	// each instance describes the host type by its own registrations
+	for _, in := range insts {
+		cd, err := in.p.CodecForType(in.typ)
+		if err != nil {
+			rec.Violation("scoping", in.name+": "+err.Error(), extra)
+			return
+		}
+		d := cd.Descriptor()
+		rec.Eval(1)
+		model.MarkerBody = in.markerBody
+		if diff := model.DescDiff(in.cfg.Describe(in.typ, ""), realDesc{&d}, "$", true); diff != "" {
+			rec.Violation("scoping", fmt.Sprintf("%s: the Descriptor of the host type does not reflect this instance's registrations: %s\n  type %s", in.name, diff, typeString(in.typ)), extra)
+			return
+		}
 	}
 	// the package-level functions still behave like a default-configured instance
 	dt := reflect.StructOf([]reflect.StructField{sf("V", markedT, `plenc:"1"`), sf("N", markStrT, `plenc:"2"`), sf("S", reflect.SliceOf(tString), `plenc:"3"`), sf("T", model.TimeT, `plenc:"4"`), sf("T1", markedT, `plenc:"5,m1"`)})
